@@ -151,7 +151,7 @@ struct C14 : vr::Driver {
       Oomd::PluginConstructionContext cctx("/sys/fs/cgroup");
       auto engine = Oomd::Config2::compile(*root, cctx);
       Oomd::OomdContext ctx;
-      auto svc = Oomd::FsDropInService::create("/sys/fs/cgroup", *root, *engine, dir);
+      std::unique_ptr<Oomd::FsDropInService> svc;
       auto tick = [&] {
         svc->updateDropIns();
         engine->prerun(ctx);
@@ -160,9 +160,22 @@ struct C14 : vr::Driver {
       // the file system as the environment leaves it: file -> content index
       std::map<std::string, int> fsModel;
       for (auto& p : c.preexisting) fsModel[p.first] = p.second;
+      // hand-shake between the environment and the main loop (plain variables: one thread runs at a time)
+      bool svcCreated = false, tickRequested = false, tickStarted = false, envDone = false;
       std::thread env([&] {
+        // free choice: does the environment start acting while the service is still being created (start-up scan / watch
+        // registration in progress) or only afterwards?
+        if (vs::choose(2, "env starts during service creation?") == 0) vs::pointIf([&] { return svcCreated; }, "env waits for service creation");
+        bool firstOp = true;
         for (auto& o : c.ops) {
           std::string p = dir + "/" + o.file;
+          if (!firstOp && svcCreated && vs::choose(2, "main-loop tick before the next file operation?") == 1) {
+            // ask for a tick and continue as soon as it has STARTED, so the operation can land inside the tick
+            tickStarted = false;
+            tickRequested = true;
+            vs::pointIf([&] { return tickStarted; }, "env waits for the tick to start");
+          }
+          firstOp = false;
           vs::yield("env op");
           switch (o.kind) {
             case 'W':
@@ -217,11 +230,20 @@ struct C14 : vr::Driver {
             }
           }
         }
+        envDone = true;
       });
-      // two early ticks that may interleave with the environment and the watcher in every way the bound allows
-      for (int k = 0; k < 2; k++) {
-        vs::yield("main tick");
-        tick();
+      svc = Oomd::FsDropInService::create("/sys/fs/cgroup", *root, *engine, dir);
+      svcCreated = true;
+      // main loop: one tick right away, then a tick whenever the environment asks for one between two of its operations
+      vs::yield("main tick");
+      tick();
+      while (!envDone) {
+        vs::pointIf([&] { return tickRequested || envDone; }, "main waits for a tick request");
+        if (tickRequested) {
+          tickRequested = false;
+          tickStarted = true;
+          tick();
+        }
       }
       env.join();
       // the file system is quiet now: let everything pending be processed, then three more ticks
